@@ -4,83 +4,29 @@ import json, os
 HERE = os.path.dirname(os.path.dirname(os.path.abspath(__file__)))
 PY = '/venv/bin/python harness/check.py'
 
-TB = ('Trusted: Lean 4.33.0 kernel; axioms propext/Classical.choice/Quot.sound only (audited by #print axioms on every run); '
-      'the Spec/*.lean definitions; the correspondence harness (harness/*.py, lean/Driver) which ties the hand-written model to '
-      '/repo by differential execution on generated inputs (a test, not a proof); CPython, copy.deepcopy, re, ANTLR are modelled not verified.')
+TB = ('Trusted: Lean 4.33.0 kernel; axioms propext/Classical.choice/Quot.sound only (audited by #print axioms on every run); the Spec/*.lean definitions (those of DFA, epsilon-NFA, regular expressions and CFGs are proved equal to Mathlib definitions in lean/Bridge and need not be trusted); the correspondence harness (harness/*.py, lean/Driver) which ties the hand-written model to /repo by differential execution on generated inputs (a test, not a proof); CPython, copy.deepcopy, re, ANTLR are modelled not verified.')
 
 CLAIMED = {
- 'C01': ('proof', 'Theorems dfa_accepts_iff, epsClosure_exact, closure_terminates/closure_exact, eqa_exact, nfa_accepts_iff, '
-         'nfa_accepts_sched_indep: the executable models of dfa_accepts_word / epsilon_closure / _nfa_cache / nfa_accepts_word equal the '
-         'textbook run semantics for every valid automaton, word over the alphabet, fuel and pop order. Model tied to the code by '
-         'exhaustive small-scope + seeded differential runs with an independent BFS oracle as third voice.', '6 C01'),
- 'C05': ('proof', 'Theorems regexp_matches_iff, regexp_simplify_lang, regexp_simplify_size, regexp_simplify_nodes for all trees and words '
-         '(nested stars, star of nullable operands). Tie: all trees with <=2/3 operators x all words <=3/4 plus random trees, '
-         'derivative-based oracle as third voice.', '6 C05'),
- 'C11': ('proof', 'Theorems tm_step_spec, tm_head_inv, tm_doTransition_spec, tm_accepts_true/false/none_iff, tm_budget_mono, '
-         'tm_simulate_trace, tm_simulate_verdict: the model of the simulator realises the Sipser step relation with the library conventions, '
-         'three-valued verdict exactly characterised, trace = prefix of the step sequence; for all machines, words, budgets.', '6 C11'),
- 'C02': ('proof', 'Theorems dfa_words_exact, nfa_words_exact, regexp_words_exact, regexp_words_matches, tm_words_exact (plus, when registered, '
-         'cfg_words_exact_cnf and pda_words_exact): each bounded enumerator model returns exactly the words of length <= n over Sigma that '
-         'the spec language contains (= what the proved acceptance test accepts), for every n including 0. generate_language dispatch is tied by '
-         'the harness. PDA clause under the no-truncation hypothesis the property states.', '6 C02'),
- 'C03': ('proof', 'Theorems nfaToDfa_spec (termination within the fuel, valid total DFA, same alphabet, initial state = epsilon closure, every state '
-         'reachable, language equal for words of every length), nfaToDfa_sched_indep, nfaToDfa_named (print_state_set names, under injectivity '
-         'of the naming on the constructed subsets), nfaToDfa_loop_partial.', '6 C03'),
- 'C07': ('proof', 'Theorems cyk_total, cyk_cell_sound, cyk_cell_exact_of_valid (every cell holds exactly the variables deriving the subword), '
-         'cfg_accepts_cnf_sound, cfg_accepts_cnf_iff_of_valid; for arbitrary grammars cfg_accepts_iff composes with the C08 pipeline theorem '
-         '(registered when proved). Tie: every table cell and verdict against a span-saturation oracle on the ORIGINAL grammar.', '6 C07'),
- 'C08': ('proof', 'Per-phase theorems addStart_spec, removeEps_spec (incl. nullable_exact), elimUnit_spec (incl. derivable_exact, order independence), '
-         'binarise_spec, isolateTerminals_spec (language preserved + postcondition + fresh variables new and pairwise distinct, also beyond 26 '
-         'variables: freshVariable_fresh, freshVariables_distinct); the model tracks the aliasing of Alternative objects that the in-place '
-         'phases observe. Composition toChomsky_spec registered when proved.', '6 C08'),
- 'C09': ('proof', 'Theorems pda_moves_iff, pda_epsClosure_sound/complete/not_truncated, pda_accepts_sound (every limit, every pop order), '
-         'pda_accepts_complete (whenever no closure on the way is truncated).', '6 C09'),
- 'C18': ('proof', 'Theorems nfa_union_spec, nfa_concat_spec, nfa_repetition_spec (valid result, epsilon preserved, language = union / concatenation / '
-         'Kleene star) for disjoint operands with equal epsilon symbol and any fresh state; genFresh_fresh (the generated name is never an '
-         'operand state, whatever the counter), nfa_union_history_indep. Operands with different epsilon symbols are covered by the tie only.', '6 C18'),
- 'C04': ('proof', 'Theorems table_exact / minimizeTable_spec (table filling), quotient_spec (Moore refinement), hopcroft_spec / hopcroft_terminates '
-         '(Hopcroft with the stale waiting-set entries of the code, every pop order): each routine terminates within its fuel and returns a valid DFA '
-         'over the same alphabet whose states are exactly the Myhill-Nerode classes of ALL input states (DFA.IsNerode), hence same language, pairwise '
-         'distinguishable states, size = number of classes (which lies between the class counts of reachable and of all states).', '6 C04'),
- 'C06': ('proof', 'Theorems regexpToNfa_spec (Thompson composition with generated names and the shared alphabet accumulator: valid NFA, language = '
-         'denoted language, all word lengths), toGnfa_spec, rip_spec, rip_label_lang, toRegexp_lang (state elimination in EVERY order yields an '
-         'expression denoting exactly L(D)).', '6 C06'),
- 'C10': ('proof', 'Theorems pda_oneAccepting_spec, pda_emptyStack_spec / pda_emptyStackS_spec (with the drain state: same language and acceptance only '
-         'with the empty stack), pda_pushPopS_spec, tripleCfg_sound / tripleCfg_complete / tripleCfg_lang (Sipser Lemma 2.27 for the model of the '
-         'triple construction); the end-to-end composition pda_toCfg_lang is registered when proved.', '6 C10'),
- 'C12': ('proof', 'Theorems compare_none_iff / compare_extra / compare_missing (language comparison: empty feedback iff equal; reported word genuine, '
-         'right polarity, minimal length, extra before missing) and chk_*_sound for every object-level checker model (language-from-words, '
-         'accept/reject lists, three products, complement, reverse, minimal, NFA->DFA, CYK table, derivations, Chomsky phases): verdict OK implies '
-         'the exercise criterion. Answer parsing is the library parser (C16/C17), tied in the harness.', '6 C12'),
- 'C15': ('proof', 'Theorems dfa_simulate_valid, nfa_simulate_valid, nfa_simulate_some_iff (a genuine accepting run is produced, in finite time, exactly '
-         'for accepted words, every pop order; generic back-pointer search findPath_sound/none/total), pda_simulate_valid / _accepts / _none_iff, '
-         'cfg_derive_valid / cfg_derive_rejects (leftmost and rightmost derivations from the CYK table). PDA termination is the partial clause '
-         'pda_simulate_terminates_partial (finite epsilon-reachable universe).', '6 C15'),
- 'C20': ('proof', 'Theorems isomorphic1_iff, isomorphic_iff (both routines terminate within their fuel and answer True exactly when the reachable parts '
-         'are isomorphic, every exploration order), iso_symm, iso_lang, iso_rename, isomorphic_agree.', '6 C20'),
- 'C13': ('proof', 'Theorems own_product_ok, own_complement_ok, own_reverse_ok, own_minimal_quotient_ok, own_minimal_hopcroft_ok, own_language_ok, '
-         'own_chomsky_ok (+ own_chomsky_struct_ok, own_chomsky_ok_le3): the object-level checker models accept the object the generator function '
-         'returns. The text layer (printer -> parser on the answer key) and the remaining exercises (NFA->DFA, DFA->regexp, CYK table, derivations) are '
-         'carried by the tie: apply_command of notebooks/make_notebook.py on generated references + the shipped notebooks. Three recorded findings '
-         '(KNOWN_FINDINGS.json).', '6 C13'),
- 'C19': ('proof', 'Order independence is proved per operation (c19_nfa_accepts, c19_nfa_words, c19_nfaToDfa, c19_hopcroft, c19_minimizers_agree, '
-         'c19_toRegexp, c19_elimUnit, c19_isomorphic, c19_pda_accepts: identical value / same classes / same language for every scheduler). Argument '
-         'immutability at the alias sites is proved in the heap micro-model (repetitionCopied_frame, concatCopied_frame, *_operand(s)_intact; the '
-         'original shared versions are proved to mutate: *_mutates). PARTIAL: heap-level immutability outside the modelled alias sites, history '
-         'independence and process-level hash-seed independence are carried by the harness (argument snapshots around every call, repeated calls, '
-         'logging on/off, random call prefixes, in-place edits, 2-8 fresh processes with different PYTHONHASHSEED).', '6 C19'),
- 'C16': ('proof', 'Theorems parse_print_dfa, parse_print_nfa, parse_print_pda, parse_print_tm (+ _raw variants): for every valid automaton whose state '
-         'names are \\w+ and not keywords of the format and whose symbols are printable (single characters of the label classes for PDA/TM), '
-         'parsing the printed text returns an automaton with the same states, alphabets, initial / accepting / halting states and transition '
-         'function (F empty, alphabet empty, isolated states, several labels per edge included). Regexp syntaxes and the simple grammar format: Lean '
-         'reference parsers / printers (Model/RegexpText.lean, Model/CfgText.lean) tied to the ANTLR / regex based implementation by '
-         'correspondence; their round-trip theorems are registered when proved.', '6 C16'),
- 'C17': ('proof', 'Theorems parseX_ok_valid for the four parsers (no parser ever returns an object violating its class invariant, for EVERY text), '
-         'parseX_builds (the returned automaton is exactly the documented function of the parsed lines: declared or derived state set and alphabets, '
-         'default epsilon / blank, last TM transition wins), rejection theorems (nondeterministic or non-total DFA, undeclared state, no / several '
-         'initial states, repeated declaration, transition with fewer than three words). Rendered layouts and single-fault corruptions are the tie.', '6 C17'),
- 'C14': ('proof', 'Theorems product_valid/product_*_lang, complement_*, mapStates_*, noPrefix_*, makeTotal_*, freshState_fresh and the '
-         'finite-language helper specs (lang*_spec, wordsOfLength_spec, wordsUpTo_spec). and reachableStates_zero/pos, removeUnreachable_spec, noExtend_spec, reverse_valid, reverse_lang.', '6 C14'),
+ 'C01': ('proof', 'Theorems dfa_accepts_iff, epsClosure_exact, closure_terminates/closure_exact, eqa_exact, nfa_accepts_iff, nfa_accepts_sched_indep: the executable models of dfa_accepts_word / epsilon_closure / _nfa_cache / nfa_accepts_word equal the textbook run semantics for every valid automaton, word over the alphabet, fuel and pop order. Model tied to the code by exhaustive small-scope + seeded differential runs with an independent BFS oracle as third voice.', '6 C01'),
+ 'C05': ('proof', 'Theorems regexp_matches_iff, regexp_simplify_lang, regexp_simplify_size, regexp_simplify_nodes for all trees and words (nested stars, star of nullable operands). Tie: all trees with <=2/3 operators x all words <=3/4 plus random trees, derivative-based oracle as third voice.', '6 C05'),
+ 'C11': ('proof', 'Theorems tm_step_spec, tm_head_inv, tm_doTransition_spec, tm_accepts_true/false/none_iff, tm_budget_mono, tm_simulate_trace, tm_simulate_verdict: the model of the simulator realises the Sipser step relation with the library conventions, three-valued verdict exactly characterised, trace = prefix of the step sequence; for all machines, words, budgets.', '6 C11'),
+ 'C02': ('proof', 'Theorems dfa_words_exact, nfa_words_exact, regexp_words_exact, regexp_words_matches, tm_words_exact, cfg_words_exact_cnf, cfg_words_exact, pda_words_sound/exact/matches_accepts: each bounded enumerator model returns exactly the words of length <= n over Sigma that the spec language contains (= what the proved acceptance test accepts), for every n including 0. generate_language dispatch is tied by the harness. PDA clause under the no-truncation hypothesis the property states.', '6 C02'),
+ 'C03': ('proof', 'Theorems nfaToDfa_spec (termination within the fuel, valid total DFA, same alphabet, initial state = epsilon closure, every state reachable, language equal for words of every length), nfaToDfa_sched_indep, nfaToDfa_named, nfaToDfa_loop_partial; printStateSet_inj and nfaToDfa_named_clean (print_state_set names: the full statement for every NFA whose state names are non-empty and comma-free), and the formal boundary: printStateSet_collision_empty_name/_comma, nfaToDfa_name_collision_witness (recorded finding nfa2dfa-subset-name-collision). Spec bridged to Mathlib (epsilon-NFA, DFA).', '6 C03'),
+ 'C07': ('proof', 'Theorems cyk_total, cyk_cell_sound, cyk_cell_exact_of_valid (every cell holds exactly the variables deriving the subword), cfg_accepts_cnf_sound, cfg_accepts_cnf_iff_of_valid; for arbitrary grammars cfg_accepts_iff composes with the C08 pipeline theorem; CFG.Lang is proved equal to the Mathlib ContextFreeGrammar.language (Bridge). Tie: every table cell and verdict against a span-saturation oracle on the ORIGINAL grammar.', '6 C07'),
+ 'C08': ('proof', 'Per-phase theorems addStart_spec, removeEps_spec (incl. nullable_exact), elimUnit_spec (incl. derivable_exact, order independence), binarise_spec, isolateTerminals_spec (language preserved + postcondition + fresh variables new and pairwise distinct, also beyond 26 variables: freshVariable_fresh, freshVariables_distinct); the model tracks the aliasing of Alternative objects that the in-place phases observe. Composition toChomsky_spec and applyChomsky_lang (every phase prefix).', '6 C08'),
+ 'C09': ('proof', 'Theorems pda_moves_iff, pda_epsClosure_sound/complete/not_truncated, pda_accepts_sound (every limit, every pop order), pda_accepts_complete (whenever no closure on the way is truncated).', '6 C09'),
+ 'C18': ('proof', 'Theorems nfa_union_spec, nfa_concat_spec, nfa_repetition_spec (valid result, epsilon preserved, language = union / concatenation / Kleene star) for disjoint operands and any fresh state; nfa_union_spec_eps / nfa_concat_spec_eps for operands with DIFFERENT epsilon symbols (exact condition: the epsilon of the first operand is not an input symbol of the second) and nfa_*_eps_clash otherwise (the constructor assertion fails); genFresh_fresh (the generated name is never an operand state, whatever the counter), nfa_union_history_indep.', '6 C18'),
+ 'C04': ('proof', 'Theorems table_exact / minimizeTable_spec (table filling), quotient_spec (Moore refinement), hopcroft_spec / hopcroft_terminates (Hopcroft with the stale waiting-set entries of the code, every pop order): each routine terminates within its fuel and returns a valid DFA over the same alphabet whose states are exactly the Myhill-Nerode classes of ALL input states (DFA.IsNerode), hence same language, pairwise distinguishable states, size = number of classes (which lies between the class counts of reachable and of all states).', '6 C04'),
+ 'C06': ('proof', 'Theorems regexpToNfa_spec (Thompson composition with generated names and the shared alphabet accumulator: valid NFA, language = denoted language, all word lengths), toGnfa_spec, rip_spec, rip_label_lang, toRegexp_lang (state elimination in EVERY order yields an expression denoting exactly L(D)).', '6 C06'),
+ 'C10': ('proof', 'Theorems pda_oneAccepting_spec, pda_emptyStack_spec / pda_emptyStackS_spec (with the drain state: same language and acceptance only with the empty stack), pda_pushPopS_spec, tripleCfg_sound / tripleCfg_complete / tripleCfg_lang (Sipser Lemma 2.27 for the model of the triple construction); the end-to-end composition pda_toCfg_lang.', '6 C10'),
+ 'C12': ('proof', 'Theorems compare_none_iff / compare_extra / compare_missing (language comparison: empty feedback iff equal; reported word genuine, right polarity, minimal length, extra before missing) and chk_*_sound for every object-level checker model (language-from-words, accept/reject lists, three products, complement, reverse, minimal, NFA->DFA, CYK table, derivations, Chomsky phases): verdict OK implies the exercise criterion. TEXT level (Model/CheckText.lean = library parsers o checker o verdict): complement/product/reverse/minimal/nfa2dfa/dfa2regexp/cyk/derivation/chomsky_text_sound with no hypothesis other than that the verdict is OK (validity and duplicate-freeness of parser results are proved); the whole pipeline is tied to the Python checkers on every (instance, answer) pair. The generated ANTLR regexp parser recovers from syntax errors; the Lean parser is strict, texts it rejects are outside the dfa2regexp tie.', '6 C12'),
+ 'C15': ('proof', 'Theorems dfa_simulate_valid, nfa_simulate_valid, nfa_simulate_some_iff (a genuine accepting run is produced, in finite time, exactly for accepted words, every pop order; generic back-pointer search findPath_sound/none/total), pda_simulate_valid / _accepts / _none_iff, cfg_derive_valid / cfg_derive_rejects (leftmost and rightmost derivations from the CYK table). PDA termination is the partial clause pda_simulate_terminates_partial (finite epsilon-reachable universe).', '6 C15'),
+ 'C20': ('proof', 'Theorems isomorphic1_iff, isomorphic_iff (both routines terminate within their fuel and answer True exactly when the reachable parts are isomorphic, every exploration order), iso_symm, iso_lang, iso_rename, isomorphic_agree.', '6 C20'),
+ 'C13': ('proof', 'Theorems own_product_ok, own_complement_ok, own_reverse_ok, own_minimal_quotient_ok, own_minimal_hopcroft_ok, own_language_ok, own_chomsky_ok (+ own_chomsky_struct_ok, own_chomsky_ok_le3): the object-level checker models accept the object the generator function returns; own_nfa2dfa_ok, own_cyk_ok, own_derivation_ok, own_dfa2regexp_ok, own_minimal_*_ok_clean; TEXT level (arbitrary reference text that parses, printed key re-parsed): own_{complement,product,reverse,minimal,nfa2dfa,dfa2regexp,cyk,derivation}_text_ok. Four requested statements were refuted formally (*_stmt_false); each refutation replays on the real library. Tie: apply_command of notebooks/make_notebook.py on generated references + the shipped notebooks + the answer-key printer models. Five recorded findings (KNOWN_FINDINGS.json), each exercised by a fixed witness on every run. Chomsky phases at text level: tie only.', '6 C13'),
+ 'C19': ('proof', 'Order independence is proved per operation (c19_nfa_accepts, c19_nfa_words, c19_nfaToDfa, c19_hopcroft, c19_minimizers_agree, c19_toRegexp, c19_elimUnit, c19_isomorphic, c19_pda_accepts: identical value / same classes / same language for every scheduler). Argument immutability at the alias sites is proved in the heap micro-model (repetitionCopied_frame, concatCopied_frame, *_operand(s)_intact; the original shared versions are proved to mutate: *_mutates). PARTIAL: heap-level immutability outside the modelled alias sites, history independence and process-level hash-seed independence are carried by the harness (argument snapshots around every call, repeated calls, logging on/off, random call prefixes, in-place edits, 2-8 fresh processes with different PYTHONHASHSEED).', '6 C19'),
+ 'C16': ('proof', 'Theorems parse_print_dfa, parse_print_nfa, parse_print_pda, parse_print_tm (+ _raw variants): for every valid automaton whose state names are \\w+ and not keywords of the format and whose symbols are printable (single characters of the label classes for PDA/TM), parsing the printed text returns an automaton with the same states, alphabets, initial / accepting / halting states and transition function (F empty, alphabet empty, isolated states, several labels per edge included). parseFull_printFull, parseSimple_printSimple (both regexp syntaxes: same language, same printed form), parse_print_cfg (simple grammar format, Printable grammars); the Lean reference parsers / printers (Model/RegexpText.lean, Model/CfgText.lean) are tied to the ANTLR / regex based implementation by correspondence.', '6 C16'),
+ 'C17': ('proof', 'Theorems parseX_ok_valid for the four parsers (no parser ever returns an object violating its class invariant, for EVERY text), parseX_builds (the returned automaton is exactly the documented function of the parsed lines: declared or derived state set and alphabets, default epsilon / blank, last TM transition wins), rejection theorems (nondeterministic or non-total DFA, undeclared state, no / several initial states, repeated declaration, transition with fewer than three words), parseDfa/Nfa_ok_valid_gen (any state-label pattern: valid, duplicate-free states and keys), parseSimpleCfg_ok_valid. Rendered layouts and single-fault corruptions are the tie.', '6 C17'),
+ 'C14': ('proof', 'Theorems product_valid/product_*_lang, complement_*, mapStates_*, noPrefix_*, makeTotal_*, freshState_fresh and the finite-language helper specs (lang*_spec, wordsOfLength_spec, wordsUpTo_spec). and reachableStates_zero/pos, removeUnreachable_spec, noExtend_spec, reverse_valid, reverse_lang.', '6 C14'),
 }
 
 NOT_YET = 'check under construction in this round (model/tie exist or are being written; no theorem registered yet); see DESIGN.md section 6'
